@@ -59,7 +59,7 @@ PROPS = {
     "C03": P("C03", ["LSProofs.Props.C03"], ["ev", "rc", "handles"],
              [RANDOM_Q, ENUM_Q, fam("ladder", n=300)], [RANDOM_T, ENUM_T, fam("ladder", n=3000)], GUARDS),
     "C04": P("C04", ["LSProofs.Props.C04"], None,
-             [fam("threads", n=200, scripted=False)], [fam("threads", n=3000, scripted=False)], ["atomicSites", "callOrder"],
+             [fam("threads", n=200, scripted=False)], [fam("threads", n=3000, scripted=False)], ["atomicSites", "callOrder", "atomicOrdCodes"],
              search=[fam("threads", n=2000, scripted=False)], scripted=False),
     "C05": P("C05", ["LSProofs.Props.C05"], ["out", "text", "rc", "ev", "handles"],
              [fam("faultsweep", n=250), ENUM_Q], [fam("faultsweep", n=2500), ENUM_T, RANDOM_T], GUARDS,
